@@ -53,6 +53,12 @@ func normalizeURI(refPath, base string) string {
 		refURL.Path = ""
 	}
 
+	if refURL.Scheme == fileScheme {
+		// any query component is irrelevant for a local file (see normalizeBase)
+		refURL.RawQuery = ""
+		refURL.ForceQuery = false
+	}
+
 	r := MustCreateRef(refURL.String())
 	if r.IsCanonical() {
 		return refURL.String()
